@@ -39,7 +39,8 @@ EXTENDS Integers, Sequences, FiniteSets, TLC, Json
 
 CONSTANTS Ints,         \* int values used in conforming values (1-, 2- and 10-byte varints)
           Depth,        \* nesting depth of field types (0 = base kinds only)
-          TwoFields,    \* BOOLEAN: also two-field schemas (first field depth <= 1, second base)
+          TwoFields,    \* BOOLEAN: also two-field schemas (first field depth <= FirstDepth, second base)
+          FirstDepth,   \* nesting depth of the first field in two-field schemas
           Randoms       \* number of seeded random-bytes cells per (schema, value)
 
 VARIABLES schema,   \* sequence of field types of struct Top
@@ -216,7 +217,7 @@ Mutants(ts) ==
 ---------------------------------------------------------------------------------
 Schemas ==
   {<<t>> : t \in Types(Depth)}
-  \cup (IF TwoFields THEN {<<t, u>> : t \in Types(IF Depth > 1 THEN 1 ELSE Depth), u \in BaseTypes} ELSE {})
+  \cup (IF TwoFields THEN {<<t, u>> : t \in Types(FirstDepth), u \in BaseTypes} ELSE {})
 
 RECURSIVE ValueTuples(_, _)
 ValueTuples(ts, i) == IF i > Len(ts) THEN {<<>>}
